@@ -57,8 +57,49 @@ def long_cases(ctx):
     return ctx._c03long
 
 
+def long_limit(chars):
+    """time limit for ONE single-line input of that many characters: far above 60 x the time the pinned tree needs
+    (about 3 microseconds per character for the shapes of the ladder)"""
+    return 60.0 + chars / 2000.0
+
+
 def _long_work(desc):
-    return sr.real_scan(desc["language"], scan_streams.long_text(desc))[:200]
+    return scan_streams._guarded_work(([(desc["language"], scan_streams.long_text(desc))], long_limit(desc["chars"])))[0][:200]
+
+
+def comment_cases(ctx):
+    """small programs around ONE comment whose text is put together from the syntax of many languages, rulers on a ladder
+    of lengths, the string literals of the code under check and - when the source applies a regular expression that the
+    pinned source does not have - the literal runs of that expression mixed with long runs of each of its characters
+    (what a backtracking matcher chokes on); as line comment above / behind the header / in the body, and (brace
+    languages) as block comment on one line or over several lines"""
+    rnd = ctx.rng("c03comments")
+    pumps = scan_streams.regex_pump_texts(rnd, ctx.pick(30, 120))
+    texts = pumps + [scan_streams.comment_text(rnd) for _ in range(ctx.pick(150, 1500))]
+    out = []
+    for i, body in enumerate(texts):
+        lang = sr.LANGS[i % len(sr.LANGS)] if i >= len(pumps) else rnd.choice(sr.LANGS)
+        py = lang == "Python"
+        wrap = ("class K {\n", "}\n") if lang in ("Java", "C#") else ("", "")
+        k = rnd.random()
+        if py or k < 0.5:
+            c = ("# " if py else "// ") + body
+        elif k < 0.8:
+            c = "/* " + body.replace("*/", "* /") + " */"
+        else:
+            words = body.replace("*/", "* /").split(" ")
+            cut = sorted(rnd.sample(range(len(words) + 1), min(2, len(words) + 1)))
+            c = "/* " + " ".join(words[:cut[0]]) + "\n * " + " ".join(words[cut[0]:cut[-1]]) + "\n * " + " ".join(words[cut[-1]:]) + " */"
+        head, stmt, tail = ("def f(a):", "    x = 1", "") if py else ("function f(a) {" if lang in ("JavaScript", "TypeScript") else "void f(int a) {", "  x = 1;", "}\n")
+        where = rnd.random()
+        if where < 0.4:
+            text = wrap[0] + c + "\n" + head + "\n" + stmt + "\n" + tail + wrap[1]
+        elif where < 0.7 and "\n" not in c:
+            text = wrap[0] + head + "  " + c + "\n" + stmt + "\n" + tail + wrap[1]
+        else:
+            text = wrap[0] + head + "\n" + stmt + "\n" + ("    " if py else "  ") + c + "\n" + stmt + "\n" + tail + wrap[1]
+        out.append((lang, text))
+    return out, len(pumps)
 
 
 def explain(lang, code):
@@ -133,13 +174,22 @@ def cli_runs(ctx):
                 rel = os.path.join("src", "pkg" if j % 2 else "", "long%d_%d.%s" % (j, n, sr.EXT[lang]))
                 write_bytes(os.path.join(root, rel), o.text(True).encode("utf-8"))
                 files.append(rel); longs.append(rel)
+        # files of 2-4 long functions whose names are drawn with replacement from a small pool (overloads, the same method
+        # in two classes): equal names and equal lengths among the functions that `check` lists
+        twins = []
+        for j, lang in enumerate(sr.LANGS):
+            for n in (31, 61):
+                o = scan_streams.named_program(lang, rnd, pool_size=1, sweep=n, count=rnd.randint(2, 4), name_share=0.85)
+                rel = os.path.join("src", "pkg" if j % 2 else "", "twin%d_%d.%s" % (j, n, sr.EXT[lang]))
+                write_bytes(os.path.join(root, rel), o.text(True).encode("utf-8"))
+                files.append(rel); twins.append(rel)
         env = dict(os.environ, PYTHONPATH=common.REPO, COLUMNS="200")
         py = sys.executable
         plan = [(root, ["scan", "."]), (other, ["scan", root]), (root, ["check", "."]), (root, ["check", "src"]),
                 (root, ["check", os.path.join(root, "src")]), (other, ["check", root]), (other, ["check", os.path.join(root, "src", "pkg")]),
                 (os.path.join(root, "src"), ["check", "../src/pkg"]), (root, ["check", "--quiet", "src"]),
                 (root, ["check", "--verbose", "src"])]      # configuration variant: Configuration.verbose (every file name goes through logging)
-        sample = rnd.sample(files, min(len(files), ctx.pick(12, 120))) + rnd.sample(longs, ctx.pick(4, 14))
+        sample = rnd.sample(files, min(len(files), ctx.pick(12, 120))) + rnd.sample(longs, ctx.pick(4, 14)) + twins
         for rel in rnd.sample(longs, 3):     # every way of naming a file with listed functions
             plan += [(root, ["check", rel]), (other, ["check", os.path.join(root, rel)]),
                      (os.path.join(root, "src"), ["check", os.path.relpath(os.path.join(root, rel), os.path.join(root, "src"))])]
@@ -174,9 +224,9 @@ def cli_runs(ctx):
             runs.append({"cwd": os.path.relpath(cwd, os.path.dirname(root)), "args": [a.replace(root, "<root>") for a in args], "rc": rc, "s": round(dt, 1)})
             ok = rc in (0, 1) and "Traceback" not in out and not out.startswith("[traceback]")
             # files generated with one function of 35 (70) lines must give exit status 0 (1)
-            named = [a for a in args[1:] if "long" in os.path.basename(a)]
+            named = [a for a in args[1:] if "long" in os.path.basename(a) or "twin" in os.path.basename(a)]
             if ok and args[0] == "check" and named and len(named) == len([a for a in args[1:] if not a.startswith("--")]):
-                want = 1 if any("_70." in a for a in named) else 0
+                want = 1 if any("_70." in a or "_61." in a for a in named) else 0
                 if rc != want:
                     ok = False; out = "exit status %s, expected %d. " % (rc, want) + out
             if args[0] == "scan" and ok and rc != 0:
@@ -200,6 +250,7 @@ def cli_runs(ctx):
     finally:
         shutil.rmtree(root, ignore_errors=True)
         shutil.rmtree(other, ignore_errors=True)
+    fails.sort(key=lambda f: len(f["input"]["files_latin1"]))        # runs that name ONE file first
     return runs, fails
 
 
@@ -249,10 +300,45 @@ def cli_long_runs(ctx):
     return runs, fails[:3]
 
 
+def novel_word_cases(ctx):
+    """every sequence of up to three (thorough: four) items over {words that are NEW in the source of the code under
+    check (harness/gen/srcdict.py), `(`, `)`, `{`} placed in the slots of a function definition of each language: between
+    the parameter list and the body, and inside the parameter list.  A keyword that a change teaches a header pattern
+    (`noexcept`, `throws`, `where`, ...) is exercised in every order and nesting with its neighbours, truncations
+    included.  Empty on the pinned tree."""
+    import itertools
+    from gen import srcdict
+    novel = [w for w in srcdict.words(novel_only=True) if w.isidentifier() and w.isascii()][:8]
+    if not novel:
+        return []
+    alphabet = novel + ["(", ")", "{"]
+    out = []
+    heads = {"C": ("int f(int a", ") ", "{\n  x = 1;\n}\n"), "C++": ("int f(int a", ") ", "{\n  x = 1;\n}\n"),
+             "C#": ("class K {\n  int f(int a", ") ", "{\n    x = 1;\n  }\n}\n"), "Java": ("class K {\n  int f(int a", ") ", "{\n    x = 1;\n  }\n}\n"),
+             "JavaScript": ("function f(a", ") ", "{\n  x = 1;\n}\n"), "TypeScript": ("function f(a: number", ") ", "{\n  x = 1;\n}\n"),
+             "Python": ("def f(a", ") ", ":\n    x = 1\n")}
+    for lang in sr.LANGS:
+        a, b, c = heads[lang]
+        for k in range(1, ctx.pick(3, 4) + 1):
+            for seq in itertools.product(alphabet, repeat=k):
+                if not any(w in novel for w in seq):
+                    continue
+                mid = " ".join(seq)
+                out.append((lang, a + b + mid + " " + c))
+                if k <= 2:
+                    out.append((lang, a + ", " + mid + b + c))
+    return out
+
+
 def timed_real(cs):
-    """in-process analysis with a wall-clock guard per input (hang detection)"""
-    real = sr.real_scan_many(cs)
-    return real
+    """in-process analysis with a wall-clock limit per input: a reply `hang <N>` = no result within N seconds (the pinned
+    tree needs well under N/60 s for every input of these streams: texts of at most a few thousand characters)"""
+    return scan_streams.guarded_scan_many(cs, TIME_LIMIT)
+
+
+def hang_failure(inp, r):
+    return {"input": dict(inp, time_limit_s=float(r.split()[1])), "observed": "no result after %s s" % r.split()[1],
+            "required": "analysing the text terminates (does not terminate within %s s; the pinned tree needs milliseconds)" % r.split()[1]}
 
 
 def long_failures(ctx, dist=None, started=None):
@@ -261,10 +347,12 @@ def long_failures(ctx, dist=None, started=None):
     for d, r in zip(jobs, (started or scan_streams.Heavy(_long_work, jobs)).results()):
         if dist is not None:
             dist["long_lines"][str(d["chars"])] = dist["long_lines"].get(str(d["chars"]), 0) + 1
+        if r.startswith("hang"):
+            fails.append(hang_failure(d, r))
         if r.startswith("err"):
             fails.append({"input": dict(d), "observed": r + " = " + explain(d["language"], scan_streams.long_text(d)), "required": "a (possibly empty) list of measurements"})
     fails.sort(key=lambda f: f["input"]["chars"])
-    for f in fails[:2]:
+    for f in [f for f in fails if "time_limit_s" not in f["input"]][:2]:
         # smallest size of this shape that still fails (bisection below the failing rung)
         d = f["input"]
         small = scan_streams.bisect_size(lambda k, d=d: _long_work(dict(d, chars=k)).startswith("err"), 0, d["chars"])
@@ -277,6 +365,10 @@ def long_failures(ctx, dist=None, started=None):
 
 def _correspond_main(ctx):
     cs = cases(ctx)
+    ccs, npumps = comment_cases(ctx)
+    cs += ccs
+    nws = novel_word_cases(ctx)
+    cs += nws
     heavy = scan_streams.Heavy(_long_work, sorted((d for (_, _, d) in long_cases(ctx)), key=lambda d: -d["chars"]))
     t0 = time.time()
     real = timed_real(cs)
@@ -291,7 +383,10 @@ def _correspond_main(ctx):
         m = model.get((lang, code))
         if m is not None and r != m and not (r == "err 8" and len(code) > 5000):
             dis.append({"stream": "scan/%s" % lang, "input": inp, "model": m[:300], "impl": r[:300]})
-        if r.startswith("err"):
+        if r.startswith("hang"):
+            dist["errors"]["hang"] = dist["errors"].get("hang", 0) + 1
+            fails.append(hang_failure(inp, r))
+        elif r.startswith("err"):
             dist["errors"][r] = dist["errors"].get(r, 0) + 1
             fails.append({"input": inp, "observed": r, "required": "a (possibly empty) list of measurements"})
         else:
@@ -306,11 +401,13 @@ def _correspond_main(ctx):
     lruns, lcfails = cli_long_runs(ctx)
     runs += lruns
     fails += lcfails
+    dist["sequences_of_words_new_in_the_source_in_header_slots"] = len(nws)
+    dist["comment_texts"] = {"programs": len(ccs), "aimed_at_regular_expressions_new_in_the_source": npumps, "time_limit_s": TIME_LIMIT}
     dist["byte_order_mark"] = sum(1 for (_, c) in cs if c.startswith(scan_streams.BOM))
     dist["without_any_newline"] = sum(1 for (_, c) in cs if "\n" not in c)
     return {
         "evaluations": len(cs) + len(runs) + nlong, "distinct_nontrivial": len(nontrivial) + len(runs) + nlong,
-        "rule": "single-line ladder: files of 10^2 .. 3.2*10^6 characters on ONE line (string literal, block comment followed by a function, short statements, one-line function; without any newline / with a final newline / as second line; a quarter behind a byte order mark) analysed in-process and, for a sample, through `codelimit scan|check` subprocesses; a share of the malformed stream behind a byte order mark / on one line / with a Unicode separator; malformed stream (every kind of prefix/suffix/edit of canonical programs and corpus files, token soups per language, tiny inputs, deep nesting up to the stated depth) analysed in-process, compared with the model; plus %d subprocess runs of `python -m codelimit scan|check` over a tree of such files incl. non-UTF-8 and empty files, named relatively, absolutely, via directories and from other working directories; non-trivial = inputs analysed to completion" % len(runs),
+        "rule": "every in-process analysis runs under a time limit (20 s per text of the small streams, 60 s + 0.5 ms per character on the single-line ladder; no result in time = the property's `hang`); comment stream: small programs around one comment put together from the syntax of many languages, rulers of 3 .. 100 characters, string literals of the code under check and, for regular expressions new in the source, their literal runs mixed with long runs of each of their characters; words that are new in the source: every sequence of up to 3 (thorough: 4) of them and ( ) { between parameter list and body / inside the parameter list of a function of each language; CLI tree: also files of 2-4 long functions whose names are drawn with replacement (same name, same length); single-line ladder: files of 10^2 .. 3.2*10^6 characters on ONE line (string literal, block comment followed by a function, short statements, one-line function; without any newline / with a final newline / as second line; a quarter behind a byte order mark) analysed in-process and, for a sample, through `codelimit scan|check` subprocesses; a share of the malformed stream behind a byte order mark / on one line / with a Unicode separator; malformed stream (every kind of prefix/suffix/edit of canonical programs and corpus files, token soups per language, tiny inputs, deep nesting up to the stated depth) analysed in-process, compared with the model; plus %d subprocess runs of `python -m codelimit scan|check` over a tree of such files incl. non-UTF-8 and empty files, named relatively, absolutely, via directories and from other working directories; non-trivial = inputs analysed to completion" % len(runs),
         "samples": [{"language": l, "code": c[:100], "impl": r[:80]} for (l, c), r in list(zip(cs, real))[7:10]] + runs[:4],
         "exhaustive": False, "distribution": dist,
         "disagreements": dis[:50], "oracle_failures": fails[:50],
@@ -319,9 +416,11 @@ def _correspond_main(ctx):
 
 def search(ctx, hints):
     cs = [(h["language"], h["code"]) for h in hints or [] if h and h.get("stream") == "text" and "code" in h] + list(REGRESS) + scan_streams.soups(ctx, 8000, "c03search")
-    real = sr.real_scan_many(cs)
+    cs += comment_cases(ctx)[0] + novel_word_cases(ctx)
+    real = timed_real(cs)
     fails = [{"input": {"stream": "text", "language": l, "code": c}, "observed": r, "required": "a (possibly empty) list of measurements"}
              for (l, c), r in zip(cs, real) if r.startswith("err")]
+    fails += [hang_failure({"stream": "text", "language": l, "code": c}, r) for (l, c), r in zip(cs, real) if r.startswith("hang")]
     fails.sort(key=lambda f: len(f["input"]["code"]))
     _, cf = cli_runs(ctx)
     return long_failures(ctx)[1][:3] + fails[:8] + cf[:4] + cli_long_runs(ctx)[1][:2]
@@ -354,9 +453,10 @@ def replay(payload):
         finally:
             shutil.rmtree(root, ignore_errors=True)
     code = scan_streams.long_text(inp) if inp.get("stream") == "long-line" else inp["code"]
-    r = sr.real_scan(inp["language"], code)
+    limit = long_limit(len(code)) if inp.get("stream") == "long-line" else float(inp.get("time_limit_s", TIME_LIMIT))
+    r = scan_streams.guarded_scan_many([(inp["language"], code)], limit)[0]
     print("%s %r%s -> %s" % (inp["language"], code[:80], " ... (%d characters)" % len(code) if len(code) > 80 else "", r[:100]))
-    return not r.startswith("err")
+    return not r.startswith(("err", "hang"))
 
 
 def correspond(ctx):
